@@ -28,6 +28,7 @@ type c04Req struct {
 	recipient sdk.AccAddress
 	same      bool
 	poolIds   []uint64
+	byDenom   bool // sent as MsgSwapByDenom
 }
 
 func balMap(w *World, ctx sdk.Context, a sdk.AccAddress) map[string]string {
@@ -160,6 +161,12 @@ func runC04(t *testing.T, seed int64, n int, out *Out) {
 				}
 				rq.amtIn = amt
 				msg = &ammtypes.MsgSwapExactAmountIn{Sender: rq.sender.Addr.String(), Routes: routes, TokenIn: sdk.NewCoin(rq.denomIn, amt), TokenOutMinAmount: rq.amtOut, Recipient: rq.recipient.String()}
+				if rq.hops == 1 && r.Intn(3) == 0 {
+					// the same request through the by-denom message (the chain picks the route): same amount in, same stated minimum
+					msg = &ammtypes.MsgSwapByDenom{Sender: rq.sender.Addr.String(), Amount: sdk.NewCoin(rq.denomIn, amt), MinAmount: sdk.NewCoin(rq.denomOut, rq.amtOut),
+						DenomIn: rq.denomIn, DenomOut: rq.denomOut, Recipient: rq.recipient.String()}
+					rq.byDenom = true
+				}
 			} else {
 				routes := []ammtypes.SwapAmountOutRoute{}
 				if rq.hops == 1 {
@@ -217,7 +224,7 @@ func runC04(t *testing.T, seed int64, n int, out *Out) {
 		for i, rq := range reqs {
 			ti := reqTx[rq.sender.Addr.String()]
 			code := res.Txs[ti].Code
-			line := J{"t": "c04.req", "id": 0, "block": b, "req": i, "kind": rq.kind, "hops": rq.hops, "denomIn": rq.denomIn, "denomOut": rq.denomOut, "amountIn": rq.amtIn.String(),
+			line := J{"t": "c04.req", "id": 0, "block": b, "req": i, "kind": rq.kind, "byDenom": rq.byDenom, "hops": rq.hops, "denomIn": rq.denomIn, "denomOut": rq.denomOut, "amountIn": rq.amtIn.String(),
 				"amountOut": rq.amtOut.String(), "recipientSame": rq.same, "code": code, "pools": rq.poolIds,
 				"sender": J{"before": before[i][0], "after": balMap(w, actx, rq.sender.Addr)}, "recipient": J{"before": before[i][1], "after": balMap(w, actx, rq.recipient)}}
 			if code != 0 {
